@@ -67,6 +67,7 @@ class BuiltinsMixin:
 
     def to_seq_val(self, v, node=None):
         """materialise an iterable as a tuple/list Val (iteration order)"""
+        v = self.resolve_ite(v)
         so = self.static_of(v)
         if isinstance(so, GenObj):
             if so.kind == 'items':
@@ -449,11 +450,21 @@ class BuiltinsMixin:
         # symbolic: concatenation of the materialised sequences
         t = self.alloc(builtin_class('tuple'))
         s = z3.Empty(smt.SeqV)
+        ets = set()
         for a in args:
-            s = z3.Concat(s, self.get_seq(self.to_seq_val(a)))
+            av = self.to_seq_val(a)
+            part = self.get_seq(av)
+            if z3.is_int_value(smt.simp(z3.Length(part))) and smt.simp(z3.Length(part)).as_long() == 0:
+                continue
+            ets.add(self.seq_elem_type.get(smt.simp(part).get_id())
+                    or self.container_elem_type.get(smt.simp(av).get_id()))
+            s = z3.Concat(s, part)
         if star is not None:
             self.unsupported('itertools.chain(*symbolic)')
-        self.set_seq(t, smt.simp(s))
+        s = smt.simp(s)
+        self.set_seq(t, s)
+        if len(ets) == 1 and None not in ets:
+            self.seq_elem_type[s.get_id()] = next(iter(ets))
         return t
 
     def bi_itertools_count(self, args, kwargs):
